@@ -45,3 +45,28 @@ Definition validate_object_path (s : bytes) : bool :=
 (* guid.rs::validate_guid *)
 Definition validate_guid (s : bytes) : bool :=
   Nat.eqb (length s) 32 && forallb is_hexdigit s.
+
+(* ---- entry points ------------------------------------------------------------------------
+   Every checked constructor (TryFrom<&str|String|Arc<str>|Cow|Str>, from_static_str, Owned*,
+   Deserialize) funnels into the validator above (zbus_names/src/utils.rs impl_try_from!), except
+   TryFrom<Value> / TryFrom<OwnedValue> of the six name newtypes, which #[derive(Value, OwnedValue)]
+   generates: they unwrap the inner string without validating.  BusName (hand-written impl),
+   ObjectPath and Guid are not affected. *)
+Inductive nty := TWellKnown | TUnique | TInterface | TError | TMember | TProperty | TBus | TObjectPath | TGuid.
+Inductive entry := ViaString | ViaValue.   (* ViaString: any of the string/deserialize entry points *)
+
+Definition validator (t : nty) : bytes -> bool :=
+  match t with
+  | TWellKnown => validate_well_known | TUnique => validate_unique | TInterface => validate_interface
+  | TError => validate_error | TMember => validate_member | TProperty => validate_property
+  | TBus => validate_bus | TObjectPath => validate_object_path | TGuid => validate_guid
+  end.
+
+Definition derived_value_conv (t : nty) (e : entry) : bool :=
+  match e, t with
+  | ViaValue, (TWellKnown | TUnique | TInterface | TError | TMember | TProperty) => true
+  | _, _ => false
+  end.
+
+Definition construct (t : nty) (e : entry) (s : bytes) : bool :=
+  if derived_value_conv t e then true else validator t s.
